@@ -21,7 +21,7 @@
 //! unless `C06_PARSE_STRICT=1`.
 
 use crate::generate::Case;
-use roto::verif_hooks::c06::{char_flags, escape_range, lex_all, literal_verdict_rel as literal_verdict, parse_probe, parse_signature_probe};
+use roto::verif_hooks::c06::{char_flags, escape_range, escaper_decoded, f_string_part_decoded, lex_all, literal_verdict_rel as literal_verdict, parse_probe, parse_signature_probe};
 use rotov_harness::Report;
 use rotov_harness::driver::{Driver, hex};
 use serde_json::json;
@@ -381,12 +381,86 @@ fn run_signature(src: &str, drv: &mut Driver, rep: &mut Report, input: &serde_js
     }
 }
 
+/// Every non-empty f-string text part of the source: the text the REAL `unescape_f_string_part` decodes it to (hook
+/// `f_string_part_decoded`) against the text rebuilt from the MODEL's pieces (`c06 fpieces`) — each piece decoded by
+/// the escaper alone (hook `escaper_decoded`), joined by the brace that stands at the end of the piece. This ties the
+/// model's scan (`uScan`: what is a brace escape, what is skipped as an escape) to the real one on texts that DECODE;
+/// the location comparison of `diff_source` ties it on texts that do not.
+fn check_f_decoded(src: &str, toks: &[Tok], drv: &mut Driver, rep: &mut Report, idx: u64) {
+    for (k, s, e) in toks {
+        if lit_kind(k, *s, *e) != Some('F') || !in_source(src, *s, *e) {
+            continue;
+        }
+        let text = &src[*s..*e];
+        let Ok(real) = f_string_part_decoded(text) else {
+            rep.hist("fpieces_model", "real side panicked");
+            continue;
+        };
+        let Ok(ans) = ask_guarded(drv, &format!("c06 fpieces {}", hex(text))) else {
+            rep.hist("fpieces_model", "failed: driver-died");
+            continue;
+        };
+        let Some(list) = ans.trim_end().strip_prefix("pieces ") else {
+            rep.hist("fpieces_model", format!("no answer: {}", ans.trim_end().chars().take(20).collect::<String>()));
+            continue;
+        };
+        let ranges: Vec<(usize, usize)> = list
+            .split(',')
+            .filter_map(|pq| pq.split_once(':'))
+            .filter_map(|(p, q)| Some((p.parse().ok()?, q.parse().ok()?)))
+            .collect();
+        let mut shape_ok = ranges.len() == list.split(',').count() && !ranges.is_empty();
+        let mut model = Some(String::new());
+        for (j, (p, q)) in ranges.iter().enumerate() {
+            if !in_source(text, *p, *q) {
+                shape_ok = false;
+                break;
+            }
+            match (escaper_decoded(&text[*p..*q]), model.as_mut()) {
+                (Some(d), Some(m)) => m.push_str(&d),
+                _ => model = None,
+            }
+            if j + 1 < ranges.len() {
+                // a brace escape stands between this piece and the next one
+                let mut it = text[*q..].chars();
+                match (it.next(), it.next()) {
+                    (Some(a), Some(b)) if a == b && (a == '{' || a == '}') => {
+                        if let Some(m) = model.as_mut() {
+                            m.push(a);
+                        }
+                    }
+                    _ => {
+                        shape_ok = false;
+                        break;
+                    }
+                }
+            }
+        }
+        if shape_ok && real == model {
+            rep.hist("fpieces_model", if real.is_some() { "equal (decodes)" } else { "equal (escape error)" });
+            rep.evaluations += 1;
+        } else {
+            rep.hist("fpieces_model", "different");
+            if rep.model_mismatches.len() < 200 {
+                rep.mismatch(
+                    "f-string text part: the text unescape_f_string_part decodes vs the text rebuilt from the Lean model's pieces",
+                    json!({"key": "fpieces-diff", "input": src, "hex": hex(src), "text": text, "pieces": list,
+                           "real": format!("{real:?}"), "model": format!("{model:?}"), "index": idx}),
+                );
+            }
+        }
+    }
+}
+
 /// Run the differential on one source and fold the result into the report.
 pub fn run_one(src: &str, toks: Option<&[Tok]>, mut drv: Option<&mut Driver>, rep: &mut Report, input: &serde_json::Value, idx: u64) -> Diff {
     if src.trim_start().starts_with("fn") {
         if let Some(drv) = drv.as_deref_mut() {
             run_signature(src, drv, rep, input, idx);
         }
+    }
+    if let (Some(t), Some(drv)) = (toks, drv.as_deref_mut()) {
+        check_f_decoded(src, t, drv, rep, idx);
     }
     let d = diff_source(src, toks, drv);
     let outcome = outcome_of(&d.real);
